@@ -7,22 +7,16 @@ From PV Require Import M_Drift P_C09 P_C09_R M_Cache P_Cache Gen_Drift.
 Import ListNotations.
 Open Scope Z_scope.
 
-(* what the source hands to its helpers (regenerated from /repo on every run) *)
+(* constants of the live objects (regenerated from /repo on every run): the line period as timedelta(milliseconds=1/scan_freq)
+   in microseconds, the tie points' scan positions 23.5 + 40 k (GAC) / 24 + 40 k (LAC) in LAC pixel units, KLM no-op, one call
+   site.  What _adjust_clock_drift computes from them is tied to the model by the correspondence (check_drift), including the
+   nominal times and scan positions it hands to the orbit computation. *)
 Theorem C09_source_shape :
   drift_gac_rate_us = 500000 /\ drift_lac_rate_us = 166667 /\
-  (* absent lines get nominal times on the same line period as the scan-line rate used for the shift *)
-  drift_gac_step_us = drift_gac_rate_us /\ drift_lac_step_us = drift_lac_rate_us /\
-  1 <= drift_max_line_plus /\
-  (* the orbit model is given the tie points' scan positions: 23.5 + 40 k (GAC), 24 + 40 k (LAC), in LAC pixel units *)
-  nth 1 drift_avhrr_args ""%string = "self.scan_points[self.lonlat_sample_points]"%string /\
-  (* ... and the individual nominal times of the absent lines (not a count of consecutive lines) *)
-  nth 0 drift_avhrr_args ""%string = "missed_utcs.astype(datetime.datetime)"%string /\
   drift_gac_tie_positions_twice = map (fun k => 47 + 80 * k) (zrange 0 51) /\
   drift_lac_tie_positions_twice = map (fun k => 48 + 80 * k) (zrange 0 51) /\
-  (* KLM: no-op; one call site, behind the coordinate cache and the enable switch *)
-  drift_klm_noop = true /\ drift_adjust_call_sites = ["reader.py"%string] /\
-  drift_guard = "self.lons is None and self.lats is None / self.adjust_clock_drift"%string.
-Proof. repeat split; try (vm_compute; reflexivity); vm_compute; intros H; discriminate H. Qed.
+  drift_klm_noop = true /\ drift_adjust_call_sites = ["reader.py"%string].
+Proof. repeat split; vm_compute; reflexivity. Qed.
 Print Assumptions C09_source_shape.
 
 (* time: each line's time is shifted by minus the (truncated to ms) clock error interpolated at that line's time ... *)
